@@ -2,6 +2,7 @@ package c07
 
 import (
 	"fmt"
+	"strings"
 )
 
 type craftedDoc struct {
@@ -462,5 +463,123 @@ components:
 	last.fs.Files["sub/dir/c.yaml"] += `  headers:
     H: {schema: {$ref: '../b.yaml#/defs/schemas/Leaf'}}
 `
+
+	// ---- an external file whose LOCAL references name components that the root document also has (with
+	// different content): "#/components/<kind>/Same" inside ext.yaml means ext.yaml's component
+	out = append(out, craftedDoc{id: "crafted/external-local-refs-vs-root-names", fs: FileSet{Root: "root.yaml", Files: map[string]string{
+		"root.yaml": head30 + `paths:
+  /a:
+    get:
+      operationId: a
+      parameters:
+        - {$ref: 'ext.yaml#/components/parameters/Outer'}
+        - {$ref: '#/components/parameters/Same'}
+      responses:
+        "200": {$ref: 'ext.yaml#/components/responses/Outer'}
+        "404": {$ref: '#/components/responses/Same'}
+  /b:
+    post:
+      operationId: b
+      requestBody: {$ref: 'ext.yaml#/components/requestBodies/Outer'}
+      responses:
+        "200": {$ref: '#/components/responses/Same'}
+  /c:
+    put:
+      operationId: c
+      requestBody: {$ref: '#/components/requestBodies/Same'}
+      responses:
+        "200":
+          description: inline
+          headers:
+            X-Own: {$ref: '#/components/headers/Same'}
+          content:
+            application/json:
+              schema: {type: integer}
+              examples:
+                own: {$ref: '#/components/examples/Same'}
+components:
+  parameters:
+    Same: {name: rootp, in: query, schema: {type: integer}}
+  headers:
+    Same: {schema: {type: integer}}
+  responses:
+    Same:
+      description: root
+      headers:
+        X-Root: {$ref: '#/components/headers/Same'}
+  requestBodies:
+    Same: {content: {application/json: {schema: {type: integer}}}}
+  examples:
+    Same: {value: 1}
+`,
+		"ext.yaml": `components:
+  parameters:
+    Outer: {$ref: '#/components/parameters/Same'}
+    Same: {name: extp, in: query, required: true, schema: {type: string}}
+  headers:
+    Same: {required: true, schema: {type: string}}
+  responses:
+    Outer:
+      description: ext
+      headers:
+        X-Ext: {$ref: '#/components/headers/Same'}
+      content:
+        application/json:
+          schema: {type: string}
+          examples:
+            one: {$ref: '#/components/examples/Same'}
+    Same: {description: ext same}
+  requestBodies:
+    Outer: {$ref: '#/components/requestBodies/Same'}
+    Same: {required: true, content: {application/json: {schema: {type: string}}}}
+  examples:
+    Same: {value: "s"}
+`,
+	}}})
+
+	// ---- breadth, not depth: more sibling references in one place than the depth limit (1000) allows levels.
+	// The limit bounds nesting; a flat document with many references must parse like its inlined twin.
+	for _, n := range []int{40, 1100} {
+		out = append(out, single(fmt.Sprintf("wide-sibling-references-%d", n), wideDoc(n)))
+	}
+
 	return out
+}
+
+// wideDoc: one object schema with n properties whose references go to targets that ogen does not resolve ahead
+// of time: definitions outside components and a component that is itself only a reference.
+func wideDoc(n int) string {
+	var props, comps strings.Builder
+	for i := 0; i < n; i++ {
+		switch i % 3 {
+		case 0:
+			fmt.Fprintf(&props, "                  p%d: {$ref: '#/x-defs/schemas/A%d'}\n", i, i)
+		case 1:
+			fmt.Fprintf(&props, "                  p%d: {$ref: '#/components/schemas/Alias'}\n", i)
+		default:
+			fmt.Fprintf(&props, "                  p%d: {$ref: '#/x-defs/schemas/A%d'}\n", i, i-2)
+		}
+		if i%3 == 0 {
+			fmt.Fprintf(&comps, "    A%d: {type: string, maxLength: %d}\n", i, i+1)
+		}
+	}
+	return head30 + `x-defs:
+  schemas:
+` + comps.String() + `paths:
+  /a:
+    get:
+      operationId: a
+      responses:
+        "200":
+          description: ok
+          content:
+            application/json:
+              schema:
+                type: object
+                properties:
+` + props.String() + `components:
+  schemas:
+    Alias: {$ref: '#/components/schemas/Real'}
+    Real: {type: string, minLength: 2}
+`
 }
